@@ -63,13 +63,13 @@ Qed.
 Lemma sl_area_full g : wf_g g -> sl_area g (mk_slice 0 (gheight g)) (fullw g) = g_area g.
 Proof.
   intros W. pose proof (getitem_full g W) as E. apply (f_equal g_area) in E.
-  rewrite getitem_area in E. rewrite !indices_okey in E by (destruct W; unfold within; cbn; lia). exact E.
+  rewrite getitem_area in E by exact W. rewrite !indices_okey in E by (destruct W; unfold within; cbn; lia). exact E.
 Qed.
 
-Lemma rows_key_area g a b : (0 <= a)%Z -> (a <= b)%Z -> (b <= gheight g)%Z -> (0 <= gwidth g)%Z ->
+Lemma rows_key_area g a b : wf_g g -> (0 <= a)%Z -> (a <= b)%Z -> (b <= gheight g)%Z ->
   g_area (area_getitem RO g (rows_key a b)) = sl_area g (mk_slice a b) (fullw g).
 Proof.
-  intros H1 H2 H3 H4. unfold rows_key. rewrite getitem_area.
+  intros W H1 H2 H3. unfold rows_key. rewrite getitem_area by exact W.
   change (mk_oslice (Some a) (Some b)) with (okey (mk_slice a b)).
   rewrite indices_okey by (unfold within; cbn; lia). rewrite indices_none. reflexivity.
 Qed.
@@ -83,17 +83,17 @@ Lemma split_concat g k : wf_g g -> (1 <= k)%Z -> (k <= gheight g - 1)%Z ->
 Proof.
   intros W H1 H2. pose proof W as [Hw Hh].
   destruct (concat_windows g 0 k (gheight g) _ _
-              (rows_key_area g 0 k ltac:(lia) ltac:(lia) ltac:(lia) ltac:(lia))
-              (rows_key_area g k (gheight g) ltac:(lia) ltac:(lia) ltac:(lia) ltac:(lia))
+              (rows_key_area g 0 k W ltac:(lia) ltac:(lia) ltac:(lia))
+              (rows_key_area g k (gheight g) W ltac:(lia) ltac:(lia) ltac:(lia))
               ltac:(rewrite !rows_key_crs; reflexivity)) as (m & E & Ea & _ & _ & _ & Ec).
   exists m. split; [exact E|]. rewrite Ea, Ec, rows_key_crs, sl_area_full by exact W. split; reflexivity.
 Qed.
 
 (* ---- stacking all the parts of a split at any list of cut rows (induction over the cuts) *)
-Lemma height_part g a b : (0 <= a)%Z -> (a < b)%Z -> (b <= gheight g)%Z -> (0 <= gwidth g)%Z ->
+Lemma height_part g a b : wf_g g -> (0 <= a)%Z -> (a < b)%Z -> (b <= gheight g)%Z ->
   (gheight (area_getitem RO g (rows_key a b)) =? 0)%Z = false.
 Proof.
-  intros. unfold gheight at 1. rewrite rows_key_area by lia. cbn. apply Z.eqb_neq. lia.
+  intros. unfold gheight at 1. rewrite rows_key_area by (try assumption; lia). cbn. apply Z.eqb_neq. lia.
 Qed.
 
 Lemma cuts_ok_lt a cuts h : cuts_ok a cuts h -> (a < h)%Z.
@@ -107,18 +107,18 @@ Lemma stack_parts_from g cuts : wf_g g -> forall a m, (0 < a)%Z -> cuts_ok a cut
 Proof.
   intros W. pose proof W as [Hw Hh].
   induction cuts as [|k r IH]; intros a m Ha C Em Ec; cbn [parts stack_append_all cuts_ok] in *.
-  - unfold stack_append. rewrite height_part by lia. cbn [s_rdefs s_crs].
+  - unfold stack_append. rewrite height_part by (try exact W; lia). cbn [s_rdefs s_crs].
     rewrite rows_key_crs, Z.eqb_refl. cbn [negb].
     destruct (concat_windows g 0 a (gheight g) m _ Em
-                (rows_key_area g a (gheight g) ltac:(lia) ltac:(lia) ltac:(lia) ltac:(lia))
+                (rows_key_area g a (gheight g) W ltac:(lia) ltac:(lia) ltac:(lia))
                 ltac:(rewrite rows_key_crs; exact Ec)) as (m' & E & Ea & _ & _ & _ & Ec').
     rewrite E. exists m'. split; [reflexivity|]. rewrite Ea, Ec', Ec, sl_area_full by exact W. split; reflexivity.
   - destruct C as [Hak C].
     assert (Hk : (k < gheight g)%Z) by (apply (cuts_ok_lt _ _ _ C)).
-    unfold stack_append at 1. rewrite height_part by lia. cbn [s_rdefs s_crs].
+    unfold stack_append at 1. rewrite height_part by (try exact W; lia). cbn [s_rdefs s_crs].
     rewrite rows_key_crs, Z.eqb_refl. cbn [negb].
     destruct (concat_windows g 0 a k m _ Em
-                (rows_key_area g a k ltac:(lia) ltac:(lia) ltac:(lia) ltac:(lia))
+                (rows_key_area g a k W ltac:(lia) ltac:(lia) ltac:(lia))
                 ltac:(rewrite rows_key_crs; exact Ec)) as (m' & E & Ea & _ & _ & _ & Ec').
     rewrite E. apply (IH k m'); [lia|exact C|exact Ea|congruence].
 Qed.
@@ -128,15 +128,15 @@ Lemma stack_parts g cuts : wf_g g -> cuts_ok 0 cuts (gheight g) ->
              g_area m' = g_area g /\ g_crs m' = g_crs g.
 Proof.
   intros W C. pose proof W as [Hw Hh]. destruct cuts as [|k r]; cbn [parts stack_append_all cuts_ok] in *.
-  - unfold stack_append. rewrite height_part by lia. cbn [s_rdefs stack_empty].
+  - unfold stack_append. rewrite height_part by (try exact W; lia). cbn [s_rdefs stack_empty].
     rewrite rows_key_crs. eexists. split; [reflexivity|].
     rewrite rows_key_area, rows_key_crs, sl_area_full by (try exact W; lia). split; reflexivity.
   - destruct C as [Hk C].
     assert (Hk' : (k < gheight g)%Z) by (apply (cuts_ok_lt _ _ _ C)).
-    unfold stack_append at 1. rewrite height_part by lia. cbn [s_rdefs stack_empty].
+    unfold stack_append at 1. rewrite height_part by (try exact W; lia). cbn [s_rdefs stack_empty].
     rewrite rows_key_crs.
     apply (stack_parts_from g r W k); [lia|exact C| |apply rows_key_crs].
-    apply rows_key_area; lia.
+    apply rows_key_area; try exact W; lia.
 Qed.
 
 (* ---- StackedAreaDefinition.get_lonlats at list level *)
@@ -164,13 +164,15 @@ Lemma stack_rows_spec {A} (rs : pslice) (cs : oslice) (ms : list (list (list A))
 Proof.
   induction ms as [|m r IH]; intros offset; cbn [stack_rows concat].
   - rewrite take_slice_nil. reflexivity.
-  - rewrite IH. rewrite take_slice_app by lia. rewrite map_app. f_equal.
+  - assert (0 <= zlen m)%Z by (unfold zlen; lia).
+    rewrite IH. rewrite take_slice_app by lia. rewrite map_app. f_equal.
     + unfold np_slice2, local_row_slice. cbn [fst snd]. f_equal.
-      assert (0 <= zlen m)%Z by (unfold zlen; lia).
       rewrite np_slice_nonneg by lia.
       rewrite (take_slice_clamp _ (Z.min _ _)) by lia.
-      f_equal. f_equal; lia.
-    + f_equal. f_equal. f_equal; lia.
+      rewrite <- Z.min_assoc, Z.min_id. reflexivity.
+    + replace (Z.max (Z.max (sstart rs - offset) 0 - zlen m) 0) with (Z.max (sstart rs - (offset + zlen m)) 0) by lia.
+      replace (Z.max (Z.max (sstop rs - offset) 0 - zlen m) 0) with (Z.max (sstop rs - (offset + zlen m)) 0) by lia.
+      reflexivity.
 Qed.
 
 (* with a data_slice whose row bounds are non-negative ints: numpy slicing of the vstacked members *)
@@ -245,7 +247,8 @@ Section Areas.
     intros F Hw. unfold stacked_lonlats.
     rewrite stacked_rows_eq by (revert F; apply Forall_impl; intros d [H _]; lia).
     assert (Et : fold_right (fun d acc => (gheight d + acc)%Z) 0%Z defs = total_rows (map member_grid defs)).
-    { induction F as [|d r [Hd _] F IH]; cbn; [reflexivity|]. rewrite IH, zlen_member_grid by lia. reflexivity. }
+    { unfold total_rows. induction F as [|d r [Hd _] F IH]; cbn [fold_right map]; [reflexivity|].
+      rewrite IH, zlen_member_grid by lia. reflexivity. }
     assert (Ew : match defs with d :: _ => gwidth d | [] => 0%Z end = first_width (map member_grid defs)).
     { destruct F as [|d r [Hd Ed] F]; [reflexivity|]. cbn [map first_width].
       pose proof (zlen_member_grid d ltac:(lia)) as L. pose proof (member_grid_rect d ltac:(lia)) as Rc.
